@@ -11,6 +11,7 @@ package patch
 //@   at call parse.Parse assert [C12,C19] parsed-under-the-name-the-caller-gave: arg0 == ret("go/token.NewFileSet", 0) && arg1 == patchFileName && arg2 == src
 //@   at call engine.Compile assert [C12] compiled-into-the-same-file-set: arg0 == ret("go/token.NewFileSet", 0) && arg1 == ret("parse.Parse", 0, 0)
 //@   ensures [C19] a-patch-that-does-not-parse-or-compile-is-rejected: ret("parse.Parse", 0, 1) != nil ==> err != nil && f == nil
+//@   ensures [C12,C19] a-patch-that-does-not-compile-is-rejected: ret("engine.Compile", 0, 1) != nil ==> err != nil && f == nil
 //@   ensures [C12] the-file-keeps-the-file-set-and-the-program: err == nil ==> f != nil && f.fset == ret("go/token.NewFileSet", 0) && wfProg(f.prog)
 
 //@ func (f *File) Apply(filename, src) (out, err)
@@ -22,7 +23,7 @@ package patch
 //@   at call (*engine.Change).Replace set changelogsUsed = changelogsUsed + 1
 //@   at call (*astdiff.Snapshot).Diff assert [C17] the-snapshot-is-advanced-with-the-regions-of-this-change: unbox(arg2, "S_engine_Changelog") == lastChangelog
 //@   at call patch.cleanupFilePos assert [C17] only-the-regions-of-this-change-are-cleaned-up: arg1 == lastChangelog
-//@   assigns group(ast), matchCount, replFail, sitesReplaced, restructured, inspections, importFailures, lastChangelog, changelogsMade, changelogsUsed, allof("F.S_astdiff_value.Comments")
+//@   assigns group(ast), matchCount, replFail, sitesReplaced, restructured, inspections, importFailures, importsDeleted, lastChangelog, changelogsMade, changelogsUsed, allof("F.S_astdiff_value.Comments")
 //@   at call go/parser.ParseFile assert [C12,C14] the-file-is-parsed-into-the-file-set-the-patch-was-compiled-with: arg0 == f.fset
 //@   at call go/parser.ParseFile assert [C11,C17] targets-are-parsed-with-comments-and-resolved-identifiers: arg3 == const("go/parser.AllErrors") + const("go/parser.ParseComments")
 //@   at call go/format.Node assert [C12,C14] printed-with-the-same-file-set: arg1 == f.fset
